@@ -255,7 +255,86 @@ func TestGocvBoundedC03(t *testing.T) {
 			}
 		}
 	}
-	fmt.Printf("GOCV-BOUNDED cases=%d failures=%d scope=\"base {12,1234,5678}; child A: all %d sequences of <= %d operations over insert/delete of %v, child B: every %dth of them; merge/discard decisions in both orders; views of parent, child and sibling against map models, stale merges rejected without a trace\"\n", cases, fails, len(seqs), depth, paths, sample)
+	// children one after the other: the base content lies in a prior store one level below the parent; child A
+	// is merged, then child B is opened on the moved-on parent and merged, then a fresh child C must see
+	// exactly the merged content (lookups and iteration), and so must the parent. The operations include
+	// writing a path back to its base value (a node deleted at the parent's level is created again).
+	restore := map[string]string{"12": "a", "1234": "b", "5678": "c"}
+	var sops []c03op
+	for _, p := range paths {
+		sops = append(sops, c03op{false, p, "x"}, c03op{true, p, ""})
+		if v, ok := restore[p]; ok {
+			sops = append(sops, c03op{false, p, v})
+		}
+	}
+	var sseqs [][]c03op
+	for _, o1 := range sops {
+		sseqs = append(sseqs, []c03op{o1})
+		for _, o2 := range sops {
+			sseqs = append(sseqs, []c03op{o1, o2})
+		}
+	}
+	step := 1
+	if len(sseqs) > 120 {
+		step = 3 // the second child's sequences are sampled
+	}
+	for _, s1 := range sseqs {
+		for j := 0; j < len(sseqs); j += step {
+			s2 := sseqs[j]
+			cases++
+			desc := fmt.Sprintf("children one after the other: A %v merged, then B %v merged, then a fresh child", s1, s2)
+			func() {
+				defer func() {
+					if r := recover(); r != nil {
+						fail(desc, "panic: %v", r)
+					}
+				}()
+				prior := NewMemoryNodeDB()
+				bt := NewMerklePatriciaTrie(prior, 1, nil, statecache.NewEmpty())
+				pm := map[string]string{}
+				if err := apply(bt, pm, []c03op{{false, "12", "a"}, {false, "1234", "b"}, {false, "5678", "c"}}); err != nil {
+					fail(desc, "setup: %v", err)
+					return
+				}
+				parent := NewMerklePatriciaTrie(NewLevelNodeDB(NewMemoryNodeDB(), prior, false), 1, bt.GetRoot(), statecache.NewEmpty())
+				for ci, sq := range [][]c03op{s1, s2} {
+					child := NewMerklePatriciaTrie(NewLevelNodeDB(NewMemoryNodeDB(), parent.GetNodeDB(), false), parent.GetVersion(), parent.GetRoot(), statecache.NewEmpty())
+					cm := map[string]string{}
+					for k, v := range pm {
+						cm[k] = v
+					}
+					// operations that cannot apply (deleting an absent path) end the child's sequence early
+					for _, o := range sq {
+						if o.del {
+							if _, present := cm[o.path]; !present {
+								break
+							}
+						}
+						if err := apply(child, cm, []c03op{o}); err != nil {
+							fail(desc, "child %d: %v", ci, err)
+							return
+						}
+					}
+					if err := parent.MergeMPTChanges(child); err != nil {
+						fail(desc, "merge of child %d: %v", ci, err)
+						return
+					}
+					pm = cm
+				}
+				got, err := c03content(parent)
+				if err != nil || !c03same(got, pm) {
+					fail(desc, "the parent shows %s (%v), want %s", c03show(got), err, c03show(pm))
+					return
+				}
+				fresh := NewMerklePatriciaTrie(NewLevelNodeDB(NewMemoryNodeDB(), parent.GetNodeDB(), false), parent.GetVersion(), parent.GetRoot(), statecache.NewEmpty())
+				got, err = c03content(fresh)
+				if err != nil || !c03same(got, pm) {
+					fail(desc, "a fresh child opened on the parent shows %s (%v), want %s", c03show(got), err, c03show(pm))
+				}
+			}()
+		}
+	}
+	fmt.Printf("GOCV-BOUNDED cases=%d failures=%d scope=\"base {12,1234,5678}; child A: all %d sequences of <= %d operations over insert/delete of %v, child B: every %dth of them; merge/discard decisions in both orders; views of parent, child and sibling against map models, stale merges rejected without a trace; plus children opened one after the other on a parent whose base content lies one store level below (sequences of <= 2 operations incl. writing a path back to its base value), each merged, then the parent and a fresh child compared with the model\"\n", cases, fails, len(seqs), depth, paths, sample)
 	if fails > 0 {
 		t.Fail()
 	}
